@@ -97,8 +97,18 @@ impl AssetCategorizer {
                 utxos_with_ada_overhead.push((current_utxo_index.clone(), ada_overhead));
             }
 
-            if let Some(assests) = &utxo.output.amount.multiasset {
+            // a value may carry an asset map without any asset in it; such a UTxO is pure ADA
+            let assests = utxo
+                .output
+                .amount
+                .multiasset
+                .as_ref()
+                .filter(|ma| ma.0.values().any(|assets| !assets.0.is_empty()));
+            if let Some(assests) = assests {
                 for policy in &assests.0 {
+                    if policy.1 .0.is_empty() {
+                        continue;
+                    }
                     let mut current_policy_index = PolicyIndex(policy_count.clone());
                     if let Some(policy_index) = policy_ids.get(policy.0) {
                         current_policy_index = policy_index.clone()
